@@ -365,6 +365,31 @@ pub fn remove_child<S: Src, const FIRST: u8, const LAST: u8, const ARITY: usize>
     s.reached("c16.remove_child");
 }
 
+/// remove_child on ONE card kind at a solver-chosen index: it succeeds exactly for the indices
+/// child enumeration reports and hands back that child (the cheap half of `remove_child`:
+/// nothing is dropped, the remaining children are only counted)
+pub fn remove_child_bounds<S: Src, const KIND: u8, const ARITY: usize>(s: &mut S) {
+    let (mut c, n, list) = make(KIND, ARITY);
+    let e = initial(n, KIND);
+    let i = s.below(MAXCH as u8 + 2) as usize;
+    let fixed_slot = !list || (KIND == 42 && i == 0);
+    match c.remove_child(i) {
+        Some(x) => {
+            assert!(i < n, "C16.card.remove_succeeds_only_for_enumerated_children");
+            assert!(tag(&x) == e[i], "C16.card.remove_returns_child");
+            std::mem::forget(x);
+            let left = c.num_children() as usize;
+            assert!(left == if fixed_slot { n } else { n - 1 }, "C16.card.remove_takes_exactly_one_child");
+        }
+        None => {
+            assert!(i >= n, "C16.card.remove_fails_only_beyond");
+            assert!(c.num_children() as usize == n, "C16.card.failed_remove_changes_nothing");
+        }
+    }
+    std::mem::forget(c);
+    s.reached("c16.remove_child_bounds");
+}
+
 // ------------------------------------------------------------------ Module level
 
 /// skeleton: two functions; cards tagged so that every card in the module has a distinct tag.
@@ -772,6 +797,12 @@ crate::harnesses! {
     c16_remove_unary / 8 => remove_child::<_, 17, 20, 0>;
     c16_remove_ternary_setvar / 8 => remove_child::<_, 21, 24, 0>;
     c16_remove_repeat_foreach / 8 => remove_child::<_, 25, 26, 0>;
+    c16_remove_bounds_k37_a2 / 8 => remove_child_bounds::<_, 37, 2>;
+    c16_remove_bounds_k38_a2 / 8 => remove_child_bounds::<_, 38, 2>;
+    c16_remove_bounds_k39_a2 / 8 => remove_child_bounds::<_, 39, 2>;
+    c16_remove_bounds_k40_a2 / 8 => remove_child_bounds::<_, 40, 2>;
+    c16_remove_bounds_k41_a2 / 8 => remove_child_bounds::<_, 41, 2>;
+    c16_remove_bounds_k42_a2 / 8 => remove_child_bounds::<_, 42, 2>;
     c16_remove_lists_a1 / 8 => remove_child::<_, 37, 42, 1>;
     c16_remove_lists_a3_x / 8 => remove_child::<_, 37, 39, 3>;
     c16_remove_lists_a3_y / 8 => remove_child::<_, 40, 42, 3>;
